@@ -394,3 +394,23 @@ Proof.
   assert (Hm : m = v mod 2 ^ 32) by (rewrite (enc_rel32_value _ _ (to_i64_int64 v) He); apply to_i64_mod32).
   intros H. injection H as <-. unfold write_offset. rewrite He, Z.lor_0_l, Hm. reflexivity.
 Qed.
+
+(* ------------------------------------------------------------------ AArch64 ADRP with an absolute target: AsmJit patches the field with
+   target - pc and accepts it only when that is a multiple of 4096; then the architectural result Page(pc) + imm*4096 is Page(target) *)
+Theorem adrp_page_exact pc d target :
+  0 <= pc < 2 ^ 64 -> 0 <= target < 2 ^ 64 -> d mod 4096 = 0 -> (pc + d) mod 2 ^ 64 = target ->
+  ((pc - pc mod 4096) + d) mod 2 ^ 64 = target - target mod 4096.
+Proof.
+  intros Hpc Ht Hd He.
+  assert (Hlow : target mod 4096 = pc mod 4096).
+  { rewrite <- He. change (2 ^ 64) with (4096 * 2 ^ 52). rewrite Z.rem_mul_r by lia.
+    rewrite (Z.mul_comm 4096 (_ mod _)), Z.mod_add by lia. rewrite Z.mod_mod by lia.
+    rewrite Zplus_mod, Hd, Z.add_0_r, Z.mod_mod by lia. reflexivity. }
+  rewrite Hlow.
+  replace (pc - pc mod 4096 + d) with ((pc + d) - pc mod 4096) by lia.
+  assert (Hr : 0 <= target - pc mod 4096 < 2 ^ 64).
+  { rewrite <- Hlow. pose proof (Z.mod_pos_bound target 4096 ltac:(lia)). pose proof (Z.mod_le target 4096 ltac:(lia) ltac:(lia)). lia. }
+  pose proof (Z.div_mod (pc + d) (2 ^ 64) ltac:(lia)) as Hdm. rewrite He in Hdm.
+  replace (pc + d - pc mod 4096) with ((target - pc mod 4096) + ((pc + d) / 2 ^ 64) * 2 ^ 64) by lia.
+  rewrite Z.mod_add by lia. apply Z.mod_small. exact Hr.
+Qed.
